@@ -535,3 +535,6 @@ REPLAY["C10"] = replay_C10
 from props_c09 import check_C09, replay_C09  # noqa: E402
 REGISTRY["C09"] = check_C09
 REPLAY["C09"] = replay_C09
+from props_c15 import check_C15, replay_C15  # noqa: E402
+REGISTRY["C15"] = check_C15
+REPLAY["C15"] = replay_C15
